@@ -136,7 +136,10 @@ class GR:
         for k in ks:
             v = r.choice(["s" + hx(r.choice(["val", "one", "other", "lit", "é", "1", "", "a b", "inf", "NaN", "infinity", "nan", "Infinity"])), "i1", "i2", "i5", "i21", "i0", "i-3",
                           "n1.5/-", "n1/1", "n1/0", "n2/2", "t" + hx("1.0"), "t" + hx("1.50"), "t" + hx("abc"), "f0.5",
-                          "c" + hx("cv"), "z", "u7", "o" + hx("owned")])
+                          "c" + hx("cv"), "z", "u7", "o" + hx("owned"),
+                          # custom values stringified through the bundle's formatter memoizer (equal-length tags collide
+                          # under the argument type's deliberately weak hash; `bad*` fails to construct)
+                          "m" + hx("ok1"), "m" + hx("ok2"), "m" + hx("bad1")])
             out.append("%s=%s" % (hx(k), v))
         return "&".join(out)
 
